@@ -276,7 +276,7 @@ def gen_cases(tier, seed):
     codes_all = ["%03d" % i for i in range(1000)]
     codes = rng.sample(codes_all, 60) if tier == "quick" else codes_all
     items = []
-    n_items = 700 if tier == "quick" else 12000
+    n_items = 700 if tier == "quick" else 60000
     for i in range(n_items):
         enc = "utf-8" if i % 3 else "latin-1"
         pool = LINE_POOL if enc == "utf-8" else LATIN_OK
@@ -303,6 +303,6 @@ def gen_cases(tier, seed):
         cases.append({"seed": seed * 1000 + i, "tier": tier,
                       "items": chunks[i] if i < len(chunks) else [],
                       "masks": mchunks[i] if i < len(mchunks) else None,
-                      "loops": 60 if tier == "quick" else 300,
+                      "loops": 60 if tier == "quick" else 1200,
                       "cmdlines": cmdlines[i::max(len(chunks), len(mchunks))]})
     return cases
